@@ -278,13 +278,20 @@ def run_case(ctx, rnd, model, ds, i):
     key = f"{model.id}|{opname}|{text}"
     nt = any(n >= 2 and d >= 1 for n, d in g.sites)
     witness = {"model": model.source, "op": opname, "lambda": text, "expected": astx.unparse(lam_x), "missing_required": g.missing, "two_stage": two_stage}
-    mode = rnd.choice(["string", "ast"])
+    mode = rnd.choice(["string", "ast", "ast", "ast-built-by-hand"])
     try:
         if opname == "remap_by_types":
             _, out_body, _ = remap_by_types(stream, {v: model.Event}, astx.clone(body_u))
             out = lam([v], out_body)
         else:
-            s = getattr(stream, opname)(text if mode == "string" else astx.parse_expr(text))
+            supplied = text if mode == "string" else astx.parse_expr(text)
+            if mode == "ast-built-by-hand":
+                # call nodes as a program assembles them: ast.Call(func=.., args=[..]), the keywords field not given (3.12 leaves it absent)
+                from ..history import without_empty_keywords
+
+                supplied, nbare = without_empty_keywords(supplied)
+                ctx.count("call-nodes-built-without-a-keywords-field", nbare)
+            s = getattr(stream, opname)(supplied)
             out = s.query_ast.args[1]
     except ValueError as ex:
         ctx.case(key, nt)
